@@ -470,7 +470,9 @@ func (o *LogOracle) foldCheck(s *vsched.Sched, final string) {
 		nodes = append(nodes, nd{name, db, c})
 	}
 	sort.Slice(nodes, func(i, j int) bool { return nodes[i].commit < nodes[j].commit })
-	ref, err := kv.NewDB(NS, Shard, oxhMemFactory(), time.Hour, time2.SystemClock)
+	mf := oxhMemFactory()
+	defer mf.Close()
+	ref, err := kv.NewDB(NS, Shard, mf, time.Hour, time2.SystemClock)
 	if err != nil {
 		return
 	}
